@@ -69,10 +69,10 @@ theorem C10_noNewDangling_step (s : Scn) (op : Op) (hw : Wf s.net) (hc : op.clea
     exact Scn.removeLanelets_inv (fun m => Wf m ∧ NoNewDangling s.net m) kl ks kt s args r h0
   | scnRemoveSigns xs => exact Scn.removeSigns_inv (fun m => Wf m ∧ NoNewDangling s.net m) ks s xs h0
   | scnRemoveLights xs => exact Scn.removeLights_inv (fun m => Wf m ∧ NoNewDangling s.net m) kt s xs h0
-  | scnRemoveInter x =>
-    show Wf (s.removeInter x).1.net ∧ NoNewDangling s.net (s.removeInter x).1.net
-    rw [Scn.removeInter_net]
-    exact ⟨wf_removeInter hw x, nnd_removeInter _ x⟩
+  | scnRemoveInters xs =>
+    exact Scn.removeInters_inv (fun m => Wf m ∧ NoNewDangling s.net m)
+      (fun m x hq => ⟨wf_removeInter hq.1 x, hq.2.trans (nnd_removeInter m x)⟩) s xs h0
+  | scnRemoveHanging args => exact Scn.removeHanging_inv (fun m => Wf m ∧ NoNewDangling s.net m) ks kt s args h0
   | cutOut keep c =>
     have hc' : c = true := hc
     subst hc'
@@ -171,10 +171,9 @@ theorem C10_uniq_step (s : Scn) (op : Op) (hu : Uniq s.net) : Uniq (s.step op).1
   | scnRemoveLanelets args r => exact Scn.removeLanelets_inv Uniq kl ks kt s args r hu
   | scnRemoveSigns xs => exact Scn.removeSigns_inv Uniq ks s xs hu
   | scnRemoveLights xs => exact Scn.removeLights_inv Uniq kt s xs hu
-  | scnRemoveInter x =>
-    show Uniq (s.removeInter x).1.net
-    rw [Scn.removeInter_net]
-    exact uniq_of_sublist (allIds_removeInter _ x) hu
+  | scnRemoveInters xs =>
+    exact Scn.removeInters_inv Uniq (fun m x h => uniq_of_sublist (allIds_removeInter m x) h) s xs hu
+  | scnRemoveHanging args => exact Scn.removeHanging_inv Uniq ks kt s args hu
   | cutOut keep c =>
     show Uniq (match s.net.cutOut (fun a => keep.contains a) c with
         | .ok n' => (({ net := n', ids := n'.allIds } : Scn), (none : Option Err))
@@ -244,10 +243,9 @@ theorem C10_frame_step (s : Scn) (op : Op) (hc : op.cleans) : Frame s.net (s.ste
   | scnRemoveLanelets args r => exact Scn.removeLanelets_inv (Frame s.net) kl ks kt s args r Frame.refl
   | scnRemoveSigns xs => exact Scn.removeSigns_inv (Frame s.net) ks s xs Frame.refl
   | scnRemoveLights xs => exact Scn.removeLights_inv (Frame s.net) kt s xs Frame.refl
-  | scnRemoveInter x =>
-    show Frame s.net (s.removeInter x).1.net
-    rw [Scn.removeInter_net]
-    exact frame_removeInter _ x
+  | scnRemoveInters xs =>
+    exact Scn.removeInters_inv (Frame s.net) (fun m x hq => Frame.trans hq (frame_removeInter m x)) s xs Frame.refl
+  | scnRemoveHanging args => exact Scn.removeHanging_inv (Frame s.net) ks kt s args Frame.refl
   | cutOut keep c =>
     have hc' : c = true := hc
     subst hc'
@@ -471,6 +469,47 @@ theorem C10_present_scnRemoveLights (s : Scn) (xs : List Id) :
   intro heq
   exact hne (heq ▸ hi)
 
+/-- `Scenario.remove_hanging_lanelet_members(args)` called directly: lanelets and intersections stay, only hanging signs /
+lights can go -/
+theorem C10_present_scnRemoveHanging (s : Scn) (args : List RmArg) :
+    (s.removeHanging args).1.net.lids = s.net.lids ∧
+    (∀ e ∈ s.net.signs, e.1 ∉ s.net.hangingSigns args → e ∈ (s.removeHanging args).1.net.signs) ∧
+    (∀ e ∈ s.net.lights, e.1 ∉ s.net.hangingLights args → e ∈ (s.removeHanging args).1.net.lights) ∧
+    (s.removeHanging args).1.net.shapes = s.net.shapes := by
+  refine Scn.removeHanging_inv' (fun m => m.lids = s.net.lids ∧
+      (∀ e ∈ s.net.signs, e.1 ∉ s.net.hangingSigns args → e ∈ m.signs) ∧
+      (∀ e ∈ s.net.lights, e.1 ∉ s.net.hangingLights args → e ∈ m.lights) ∧ m.shapes = s.net.shapes)
+    s args ?_ ?_ ⟨rfl, fun _ h _ => h, fun _ h _ => h, rfl⟩
+  · rintro m i hi ⟨q1, q2, q3, q4⟩
+    refine ⟨(removeSign_lids m i).trans q1, fun e he hne => ?_, ?_, (removeSign_shapes m i).trans q4⟩
+    · rw [removeSign_signs, List.mem_filter]
+      refine ⟨q2 e he hne, ?_⟩
+      simp only [bne_iff_ne, ne_eq]
+      intro heq
+      exact hne (heq ▸ hi)
+    · rw [removeSign_lights]; exact q3
+  · rintro m i hi ⟨q1, q2, q3, q4⟩
+    refine ⟨(removeLight_lids m i).trans q1, q2, fun e he hne => ?_, q4⟩
+    rw [removeLight_lights, List.mem_filter]
+    refine ⟨q3 e he hne, ?_⟩
+    simp only [bne_iff_ne, ne_eq]
+    intro heq
+    exact hne (heq ▸ hi)
+
+/-- `Scenario.remove_intersection` (object or list, also when it raises half-way): lanelets, signs and lights stay; an
+intersection that was not handed in stays with all its incoming elements -/
+theorem C10_present_scnRemoveInters (s : Scn) (xs : List Id) :
+    (s.removeInters xs).1.net.lanelets = s.net.lanelets ∧ (s.removeInters xs).1.net.signs = s.net.signs ∧
+    (s.removeInters xs).1.net.lights = s.net.lights ∧
+    (∀ i ∈ s.net.inters, i.id ∉ xs → i ∈ (s.removeInters xs).1.net.inters) := by
+  refine Scn.removeInters_inv' (fun m => m.lanelets = s.net.lanelets ∧ m.signs = s.net.signs ∧ m.lights = s.net.lights ∧
+      (∀ i ∈ s.net.inters, i.id ∉ xs → i ∈ m.inters)) s xs ?_ ⟨rfl, rfl, rfl, fun _ h _ => h⟩
+  rintro m x hx ⟨q1, q2, q3, q4⟩
+  refine ⟨q1, q2, q3, fun i hi hne => List.mem_filter.2 ⟨q4 i hi hne, ?_⟩⟩
+  simp only [bne_iff_ne, ne_eq]
+  rintro rfl
+  exact hne hx
+
 theorem C10_present_scnRemoveInter (s : Scn) (x : Id) :
     (s.removeInter x).1.net = s.net.removeInter x := Scn.removeInter_net s x
 
@@ -622,6 +661,7 @@ def Op.selS (s : Scn) : Op → Id → Prop
   | .netRemoveSign x, t => t = x
   | .scnRemoveSigns xs, t => t ∈ xs
   | .scnRemoveLanelets args r, t => r = true ∧ t ∈ s.net.hangingSigns args
+  | .scnRemoveHanging args, t => t ∈ s.net.hangingSigns args
   | .cutOut keep _, t => ¬ ∃ l ∈ s.net.lanelets, keep.contains l.id = true ∧ t ∈ l.signs
   | .fromList _ _, _ => True
   | _, _ => False
@@ -630,6 +670,7 @@ def Op.selT (s : Scn) : Op → Id → Prop
   | .netRemoveLight x, t => t = x
   | .scnRemoveLights xs, t => t ∈ xs
   | .scnRemoveLanelets args r, t => r = true ∧ t ∈ s.net.hangingLights args
+  | .scnRemoveHanging args, t => t ∈ s.net.hangingLights args
   | .cutOut keep _, t => ¬ ∃ l ∈ s.net.lanelets, keep.contains l.id = true ∧ t ∈ l.lights
   | .fromList _ _, _ => True
   | _, _ => False
@@ -637,7 +678,7 @@ def Op.selT (s : Scn) : Op → Id → Prop
 /-- (intersection id, incoming id) pairs an operation selects for removal -/
 def Op.selK (s : Scn) : Op → Id × Id → Prop
   | .netRemoveInter x, y => y.1 = x
-  | .scnRemoveInter x, y => y.1 = x
+  | .scnRemoveInters xs, y => y.1 ∈ xs
   | .cutOut keep _, y => ∀ i ∈ s.net.inters, i.id = y.1 → ∀ k ∈ i.incomings, k.id = y.2 →
       cutDrops (fun a => a ∈ s.net.lids ∧ keep.contains a = true) k
   | .fromList _ _, _ => True
@@ -646,7 +687,7 @@ def Op.selK (s : Scn) : Op → Id × Id → Prop
 /-- intersection ids an operation selects for removal (in a cut-out: all incoming elements are dropped) -/
 def Op.selI (s : Scn) : Op → Id → Prop
   | .netRemoveInter x, y => y = x
-  | .scnRemoveInter x, y => y = x
+  | .scnRemoveInters xs, y => y ∈ xs
   | .cutOut keep _, y => ∀ i ∈ s.net.inters, i.id = y → ∀ k ∈ i.incomings,
       cutDrops (fun a => a ∈ s.net.lids ∧ keep.contains a = true) k
   | .fromList _ _, _ => True
@@ -711,7 +752,10 @@ theorem C10_present_step_lanelet (s : Scn) (op : Op) (a : Id) (ha : a ∈ s.net.
   | scnRemoveLanelets args r => exact (C10_present_scnRemoveLanelets s args r).1 a ha hs
   | scnRemoveSigns xs => show a ∈ (s.removeSigns xs).1.net.lids; rw [(C10_present_scnRemoveSigns s xs).1]; exact ha
   | scnRemoveLights xs => show a ∈ (s.removeLights xs).1.net.lids; rw [(C10_present_scnRemoveLights s xs).1]; exact ha
-  | scnRemoveInter x => show a ∈ (s.removeInter x).1.net.lids; rw [C10_present_scnRemoveInter]; exact ha
+  | scnRemoveInters xs =>
+    show a ∈ (s.removeInters xs).1.net.lids
+    unfold Net.lids; rw [(C10_present_scnRemoveInters s xs).1]; exact ha
+  | scnRemoveHanging args => show a ∈ (s.removeHanging args).1.net.lids; rw [(C10_present_scnRemoveHanging s args).1]; exact ha
   | cutOut keep c =>
     rw [step_cutOut_eq]
     cases hr : s.net.cutOut (fun a => keep.contains a) c with
@@ -742,7 +786,8 @@ theorem C10_present_step_sign (s : Scn) (op : Op) (e : Elem) (he : e ∈ s.net.s
     · exact (C10_present_scnRemoveLanelets s args true).2.1 e he (fun hm => hs ⟨rfl, hm⟩)
   | scnRemoveSigns xs => exact (C10_present_scnRemoveSigns s xs).2.1 e he hs
   | scnRemoveLights xs => show e ∈ (s.removeLights xs).1.net.signs; rw [(C10_present_scnRemoveLights s xs).2.1]; exact he
-  | scnRemoveInter x => show e ∈ (s.removeInter x).1.net.signs; rw [C10_present_scnRemoveInter]; exact he
+  | scnRemoveInters xs => show e ∈ (s.removeInters xs).1.net.signs; rw [(C10_present_scnRemoveInters s xs).2.1]; exact he
+  | scnRemoveHanging args => exact (C10_present_scnRemoveHanging s args).2.1 e he hs
   | cutOut keep c =>
     rw [step_cutOut_eq]
     cases hr : s.net.cutOut (fun a => keep.contains a) c with
@@ -769,7 +814,8 @@ theorem C10_present_step_light (s : Scn) (op : Op) (e : Elem) (he : e ∈ s.net.
     · exact (C10_present_scnRemoveLanelets s args true).2.2.1 e he (fun hm => hs ⟨rfl, hm⟩)
   | scnRemoveSigns xs => show e ∈ (s.removeSigns xs).1.net.lights; rw [(C10_present_scnRemoveSigns s xs).2.2.1]; exact he
   | scnRemoveLights xs => exact (C10_present_scnRemoveLights s xs).2.2.1 e he hs
-  | scnRemoveInter x => show e ∈ (s.removeInter x).1.net.lights; rw [C10_present_scnRemoveInter]; exact he
+  | scnRemoveInters xs => show e ∈ (s.removeInters xs).1.net.lights; rw [(C10_present_scnRemoveInters s xs).2.2.1]; exact he
+  | scnRemoveHanging args => exact (C10_present_scnRemoveHanging s args).2.2.1 e he hs
   | cutOut keep c =>
     rw [step_cutOut_eq]
     cases hr : s.net.cutOut (fun a => keep.contains a) c with
@@ -795,11 +841,10 @@ theorem C10_present_step_incoming (s : Scn) (op : Op) (y : Id × Id) (hy : s.net
   | scnRemoveLanelets args r => exact viaShapes _ (C10_present_scnRemoveLanelets s args r).2.2.2
   | scnRemoveSigns xs => exact viaShapes _ (shapes_of_inters_eq (C10_present_scnRemoveSigns s xs).2.2.2)
   | scnRemoveLights xs => exact viaShapes _ (shapes_of_inters_eq (C10_present_scnRemoveLights s xs).2.2.2)
-  | scnRemoveInter x =>
-    show (s.removeInter x).1.net.hasInc y.1 y.2
-    rw [C10_present_scnRemoveInter]
+  | scnRemoveInters xs =>
     obtain ⟨i, hi, hid, hk⟩ := hy
-    exact ⟨i, List.mem_filter.2 ⟨hi, by simpa [Op.selK, hid] using hs⟩, hid, hk⟩
+    exact ⟨i, (C10_present_scnRemoveInters s xs).2.2.2 i hi (by simpa [Op.selK, hid] using hs), hid, hk⟩
+  | scnRemoveHanging args => exact viaShapes _ (C10_present_scnRemoveHanging s args).2.2.2
   | cutOut keep c =>
     rw [step_cutOut_eq]
     cases hr : s.net.cutOut (fun a => keep.contains a) c with
@@ -835,11 +880,10 @@ theorem C10_present_step_inter (s : Scn) (op : Op) (x : Id) (hx : x ∈ s.net.ii
   | scnRemoveLanelets args r => exact viaShapes _ (C10_present_scnRemoveLanelets s args r).2.2.2
   | scnRemoveSigns xs => exact viaShapes _ (shapes_of_inters_eq (C10_present_scnRemoveSigns s xs).2.2.2)
   | scnRemoveLights xs => exact viaShapes _ (shapes_of_inters_eq (C10_present_scnRemoveLights s xs).2.2.2)
-  | scnRemoveInter x' =>
-    show x ∈ (s.removeInter x').1.net.iids
-    rw [C10_present_scnRemoveInter]
+  | scnRemoveInters xs =>
     obtain ⟨i, hi, hid⟩ := List.mem_map.1 hx
-    exact List.mem_map.2 ⟨i, List.mem_filter.2 ⟨hi, by simpa [Op.selI, hid] using hs⟩, hid⟩
+    exact List.mem_map.2 ⟨i, (C10_present_scnRemoveInters s xs).2.2.2 i hi (by simpa [Op.selI, hid] using hs), hid⟩
+  | scnRemoveHanging args => exact viaShapes _ (C10_present_scnRemoveHanging s args).2.2.2
   | cutOut keep c =>
     rw [step_cutOut_eq]
     cases hr : s.net.cutOut (fun a => keep.contains a) c with
@@ -946,7 +990,7 @@ example : Inv net := by unfold Inv; decide
 example : net.lids.Nodup := by decide
 -- the hypotheses of the step / run theorems are met by a history that uses every kind of operation
 example : ∀ op ∈ [Op.scnRemoveLanelets [⟨2, [10, 11], [20]⟩] true, .netRemoveSign 10, .cutOut [1, 3, 4] true,
-    .netRemoveLight 20, .scnRemoveInter 30, .fromList [1, 4] true], op.cleans := by decide
+    .netRemoveLight 20, .scnRemoveInters [30], .scnRemoveHanging [⟨1, [10], []⟩], .fromList [1, 4] true], op.cleans := by decide
 -- removing lanelet 2 with its referenced elements: sign 11 (only on 2) goes, sign 10 (shared with 1) and light 20
 -- (shared with 3) stay, every reference to 2 is gone
 example : ((scn.step (.scnRemoveLanelets [⟨2, [10, 11], [20]⟩] true)).1.net.sids,
